@@ -37,6 +37,20 @@ pub fn ext_two(s: &str) -> Ext<&str> {
     r
 }
 
+/// digits like `ext_digits`, but panics when the remaining input starts with '!' (a user function with a bug:
+/// the panic must reach the caller of parse() and leave nothing behind)
+pub fn ext_bang(s: &str) -> Ext<String> {
+    if s.starts_with('!') {
+        push(Ev::Ext { name: "ext_bang", pos: offset_of(s), ok: false, len: 0 });
+        panic!("{}", USER_PANIC);
+    }
+    let n = s.bytes().take_while(|b| b.is_ascii_digit()).count();
+    let r = if n == 0 { Err("expected digits") } else { Ok((s[..n].to_string(), n)) };
+    log_ext("ext_bang", s, &r);
+    r
+}
+pub const USER_PANIC: &str = "verif: the user's extern function panics";
+
 /// succeeds without consuming
 pub fn ext_zero(s: &str) -> Ext<String> {
     let r = Ok((String::new(), 0));
